@@ -569,12 +569,77 @@ func (w *world) handler(ip string, idx int) vnode.Handler {
 	})
 }
 
+// ---------------------------------------------------------------- host selection by host id
+
+// byIDPolicy is a round-robin HostSelectionPolicy (public extension point) that identifies hosts by their host id, so that
+// two hosts which share an IP address and differ in their port are both offered. It has no scheduling points of its own
+// (HostInfo.IsUp takes the host's lock, as in gocql's round robin); accesses are announced to the scheduler with vs.Touch.
+type byIDPolicy struct {
+	obj   byte
+	hosts []*gocql.HostInfo // sorted by ip:port
+	n     int
+}
+
+type pickedHost struct{ h *gocql.HostInfo }
+
+func (p pickedHost) Info() *gocql.HostInfo { return p.h }
+func (p pickedHost) Mark(error)            {}
+
+func (p *byIDPolicy) touch() { vs.Touch(unsafe.Pointer(&p.obj), true) }
+
+func (p *byIDPolicy) AddHost(h *gocql.HostInfo) {
+	p.touch()
+	for _, o := range p.hosts {
+		if o.HostID() == h.HostID() {
+			return
+		}
+	}
+	l := append(append([]*gocql.HostInfo(nil), p.hosts...), h)
+	sort.Slice(l, func(i, j int) bool { return gocql.VerifHostAddrPort(l[i]) < gocql.VerifHostAddrPort(l[j]) })
+	p.hosts = l
+}
+
+func (p *byIDPolicy) RemoveHost(h *gocql.HostInfo) {
+	p.touch()
+	var l []*gocql.HostInfo
+	for _, o := range p.hosts {
+		if o.HostID() != h.HostID() {
+			l = append(l, o)
+		}
+	}
+	p.hosts = l
+}
+
+func (p *byIDPolicy) HostUp(h *gocql.HostInfo)                  { p.AddHost(h) }
+func (p *byIDPolicy) HostDown(h *gocql.HostInfo)                { p.RemoveHost(h) }
+func (p *byIDPolicy) SetPartitioner(string)                     {}
+func (p *byIDPolicy) KeyspaceChanged(gocql.KeyspaceUpdateEvent) {}
+func (p *byIDPolicy) Init(*gocql.Session)                       {}
+func (p *byIDPolicy) IsLocal(*gocql.HostInfo) bool              { return true }
+
+func (p *byIDPolicy) Pick(gocql.ExecutableQuery) gocql.NextHost {
+	p.touch()
+	hosts, shift, i := p.hosts, p.n, 0 // the list is replaced, never modified in place
+	p.n++
+	return func() gocql.SelectedHost {
+		for i < len(hosts) {
+			h := hosts[(shift+i)%len(hosts)]
+			i++
+			if h.IsUp() {
+				return pickedHost{h}
+			}
+		}
+		return nil
+	}
+}
+
 // ---------------------------------------------------------------- scenario
 
 type c14cfg struct {
 	name       string
 	hosts      int
-	max        int // MaxPreparedStmts; 0: the default (1000)
+	sameIP     bool // address layout of the hosts: false = one IP address per host, all on port 9042; true = ONE IP address, one port per host (address translation / NAT, local clusters)
+	max        int  // MaxPreparedStmts; 0: the default (1000)
 	threads    [][]opSpec
 	prepFaults int    // 0: PREPARE always succeeds; 1: may be answered with an ERROR frame; 2: ... or never answered
 	unprep     bool   // EXECUTE/BATCH may be answered UNPREPARED (the node forgets the id)
@@ -608,6 +673,13 @@ func (c *c14cfg) body() {
 	cl := newCluster(true)
 	var ips []string
 	for i := 1; i <= c.hosts; i++ {
+		if c.sameIP {
+			// the hosts differ ONLY in their port; they are still different hosts (own host id, own prepared ids)
+			addr := fmt.Sprintf("10.0.0.1:%d", 9041+i)
+			ips = append(ips, addr)
+			cl.addAt("10.0.0.1", 9041+i, w.handler(addr, i))
+			continue
+		}
 		ip := fmt.Sprintf("10.0.0.%d", i)
 		ips = append(ips, ip)
 		cl.add(ip, w.handler(ip, i))
@@ -621,6 +693,12 @@ func (c *c14cfg) body() {
 	cfg.WriteCoalesceWaitTime = 0
 	cfg.HostDialer = cl.dialer()
 	cfg.Keyspace = c.keyspace
+	if c.sameIP {
+		// every host selection policy that ships with gocql keeps its host list by IP address (cowHostList / HostInfo.Equal,
+		// hostpool by address string): of two hosts on one IP address it would only ever offer one. Sessions over such a
+		// topology need a policy that tells hosts apart by host id; this is the minimal one (round robin, like the default).
+		cfg.PoolConfig.HostSelectionPolicy = &byIDPolicy{}
+	}
 	if c.max > 0 {
 		cfg.MaxPreparedStmts = c.max
 	}
@@ -1044,6 +1122,13 @@ func main() {
 		{name: "two-hosts-2+1", hosts: 2, threads: [][]opSpec{T(q("A"), q("A")), T(q("A"))}, prepFaults: 1, unprep: true, grp: "t2-two-hosts", quick: true},
 		{name: "two-hosts-2x2", hosts: 2, threads: [][]opSpec{T(q("A"), q("A")), T(q("A"), q("A"))}, prepFaults: 1, unprep: true, grp: "t2-two-hosts"},
 		{name: "two-hosts-3-threads-lru1", hosts: 2, max: 1, threads: [][]opSpec{T(q("A")), T(q("A")), T(q("A"))}, prepFaults: 1, unprep: true, grp: "t2-two-hosts", quick: true},
+		// 4b. the same four configurations with the other ADDRESS LAYOUT: the two hosts share one IP address and differ only in
+		// their port (10.0.0.1:9042 / 10.0.0.1:9043; address translation / NAT, local clusters). They are still two hosts with
+		// their own host ids and their own prepared ids.
+		{name: "two-hosts-2-threads-same-ip", hosts: 2, sameIP: true, threads: [][]opSpec{T(q("A")), T(q("A"))}, prepFaults: 1, unprep: true, lateStale: true, grp: "t12-similar+same-ip", quick: true},
+		{name: "two-hosts-2+1-same-ip", hosts: 2, sameIP: true, threads: [][]opSpec{T(q("A"), q("A")), T(q("A"))}, prepFaults: 1, unprep: true, grp: "t12-similar+same-ip", quick: true},
+		{name: "two-hosts-2x2-same-ip", hosts: 2, sameIP: true, threads: [][]opSpec{T(q("A"), q("A")), T(q("A"), q("A"))}, prepFaults: 1, unprep: true, grp: "t12-similar+same-ip"},
+		{name: "two-hosts-3-threads-lru1-same-ip", hosts: 2, sameIP: true, max: 1, threads: [][]opSpec{T(q("A")), T(q("A")), T(q("A"))}, prepFaults: 1, unprep: true, grp: "t12-similar+same-ip", quick: true},
 		// 5. batches with prepared entries
 		{name: "batch-and-query", hosts: 1, threads: [][]opSpec{T(batch("I", "U")), T(q("I"), batch("U", "I"))}, prepFaults: 1, unprep: true, lateStale: true, grp: "t2-batch-arity", quick: true},
 		{name: "batch-lru1", hosts: 1, max: 1, threads: [][]opSpec{T(batch("I", "U")), T(batch("U", "U"))}, prepFaults: 1, unprep: true, t: [2]int{2, 3}},
@@ -1065,7 +1150,7 @@ func main() {
 	for _, k := range simKinds {
 		cfgs = append(cfgs,
 			&c14cfg{name: "similar-" + k.kind, hosts: 1, threads: [][]opSpec{T(q("S")), T(q("S~"+k.kind), q("S"))}, unprep: true, grp: "t12-context", quick: true},
-			&c14cfg{name: "similar-batch-" + k.kind, hosts: 1, threads: [][]opSpec{T(batch("J", "J~"+k.kind)), T(q("J~" + k.kind))}, unprep: true, grp: "t12-similar", quick: true})
+			&c14cfg{name: "similar-batch-" + k.kind, hosts: 1, threads: [][]opSpec{T(batch("J", "J~"+k.kind)), T(q("J~" + k.kind))}, unprep: true, grp: "t12-similar+same-ip", quick: true})
 	}
 	tier := os.Getenv("VERIF_TIER")
 	for i, a := range os.Args {
